@@ -29,7 +29,7 @@ func VerifC12Gemtext() {
 	var labels []byte
 	for i := 0; i < n; i++ {
 		l := byte('A' + i)
-		switch verifrt.Choice("kind", 7) {
+		switch verifrt.Choice("kind", 8) {
 		case 0:
 			lines = append(lines, "plain text line")
 		case 1: // link with a label
@@ -40,6 +40,9 @@ func VerifC12Gemtext() {
 			t := "gemini://host/x" + string(l)
 			lines = append(lines, "=>"+t)
 			targets, labels = append(targets, t), append(labels, l)
+		case 7: // a link line without a URL still is a link line (to nowhere)
+			lines = append(lines, "=>")
+			targets, labels = append(targets, ""), append(labels, 0)
 		case 3:
 			lines = append(lines, "# heading")
 		case 4:
@@ -83,7 +86,7 @@ func VerifC12Gemtext() {
 	for i, k := range nums {
 		ok = ok && k == i+1
 		if k >= 1 && k <= len(links) && i < len(labels) {
-			ok = ok && links[k-1] == targets[i] && (seenLabels[i] == labels[i] || strings.Contains(targets[i], "/x"))
+			ok = ok && links[k-1] == targets[i] && (labels[i] == 0 || seenLabels[i] == labels[i] || strings.Contains(targets[i], "/x"))
 		}
 	}
 	verifrt.Assert(ok, "numbers-1..N-in-order-and-open-their-targets")
